@@ -38,8 +38,10 @@ func (g *graph[T]) checkCycle() error {
 	// iterate on vertices in a name-order to render a predicable error message
 	// this is required by tests and enforce command reproducibility by user, which otherwise could be confusing
 	names := utils.MapKeys(g.vertices)
+	// vertices from which no cycle can be reached: explored once, whatever the number of paths leading to them
+	acyclic := map[string]bool{}
 	for _, name := range names {
-		err := searchCycle([]string{name}, g.vertices[name])
+		err := searchCycle([]string{name}, g.vertices[name], acyclic)
 		if err != nil {
 			return err
 		}
@@ -47,17 +49,21 @@ func (g *graph[T]) checkCycle() error {
 	return nil
 }
 
-func searchCycle[T any](path []string, v *vertex[T]) error {
+func searchCycle[T any](path []string, v *vertex[T], acyclic map[string]bool) error {
 	names := utils.MapKeys(v.children)
 	for _, name := range names {
 		if i := slices.Index(path, name); i >= 0 {
 			return fmt.Errorf("dependency cycle detected: %s -> %s", strings.Join(path[i:], " -> "), name)
 		}
+		if acyclic[name] {
+			continue
+		}
 		ch := v.children[name]
-		err := searchCycle(append(path, name), ch)
+		err := searchCycle(append(path, name), ch, acyclic)
 		if err != nil {
 			return err
 		}
 	}
+	acyclic[v.key] = true
 	return nil
 }
